@@ -60,7 +60,7 @@ def fluent_specs(draw):
         elif k == "yields":
             if any(o[0] == "yields" for o in ops):
                 continue
-            ops.append(["yields", draw(st.sampled_from(["pair", "triple"]))])
+            ops.append(["yields", draw(st.sampled_from(["pair", "triple", "eleven"]))])
         elif cur:
             d = draw(st.sampled_from(cur))
             cur.remove(d)
@@ -80,7 +80,7 @@ def build_fluent(fs: dict) -> Graph:
         if op[0] == "map":
             a = a.map(payload_fns.BY_NAME[op[1]])
         elif op[0] == "yields":
-            k = 2 if op[1] == "pair" else 3
+            k = {"pair": 2, "triple": 3, "eleven": 11}[op[1]]
             a = a.map(payload_fns.BY_NAME[op[1]], yields=("y", list(range(k))))
         else:
             a = a.reduce(payload_fns.total, dim=f"d{op[1]}")
